@@ -185,6 +185,9 @@ func (x *gtr) sigMethod(s *gscope, recv cellID, name string, c *ast.CallExpr) ([
 func (x *gtr) sigCall(s *gscope, c *ast.CallExpr) ([]*gv, bool) {
 	name := gexpr(c.Fun)
 	switch name {
+	case "twistededwards.GetEdwardsCurve", "bandersnatch.GetEdwardsCurve":
+		x.nargs(c, 0)
+		return []*gv{x.edCurveParams()}, true
 	case "big.NewInt":
 		x.nargs(c, 1)
 		cell := x.newCell("bigLit", &gv{t: &gtype{k: gZ}, term: fmt.Sprintf("(%d : Int)", x.staticInt(s, c.Args[0]))})
@@ -232,6 +235,44 @@ func (x *gtr) sigCall(s *gscope, c *ast.CallExpr) ([]*gv, bool) {
 		}
 	}
 	return nil, false
+}
+
+// uninterpMethod: a method of a struct of the package that is NOT looked into. eddsa `sig.SetBytes(buf)`: PARAMETERS
+// sigParseErr : bytes → Res (nil or the error), sigParseR : bytes → G (the decompressed R), sigParseS : bytes → bytes (the S half).
+func (x *gtr) uninterpMethod(s *gscope, recv cellID, key string, c *ast.CallExpr) ([]*gv, bool) {
+	if _, ok := x.p.uninterp[key]; !ok || key != "Signature.SetBytes" {
+		return nil, false
+	}
+	x.nargs(c, 1)
+	b := x.bytesArg(s, c.Args[0])
+	rv := x.store[recv]
+	x.need("sigParseErr", "List UInt8 → Res", false)
+	x.need("sigParseR", "List UInt8 → G", false)
+	x.need("sigParseS", "List UInt8 → List UInt8", false)
+	for i, f := range rv.t.fields {
+		switch f.name {
+		case "R":
+			x.setLeaf(rv.fields[i], "sigParseR "+gparen(b.term))
+		case "S":
+			x.setLeaf(rv.fields[i], "sigParseS "+gparen(b.term))
+		default:
+			reject("%s: Signature has an unexpected field %s", x.fname, f.name)
+		}
+	}
+	return []*gv{{t: &gtype{k: gInt}, term: "(0 : Int)"}, {t: &gtype{k: gErr}, term: fmt.Sprintf("(sigParseErr %s)", gparen(b.term))}}, true
+}
+
+// edCurveParams: the value of twistededwards.GetEdwardsCurve(): PARAMETERS edA edD edCofactor : Fp, edOrder : Int, edBase : G
+func (x *gtr) edCurveParams() *gv {
+	t := &gtype{k: gStruct, name: "CurveParams", fields: []gfield{{"A", &gtype{k: gFp}}, {"D", &gtype{k: gFp}}, {"Cofactor", &gtype{k: gFp}},
+		{"Order", &gtype{k: gZ}}, {"Base", &gtype{k: gG, name: "PointAffine"}}}}
+	v := &gv{t: t}
+	for _, f := range t.fields {
+		pn := "ed" + f.name
+		x.need(pn, f.t.lean(), false)
+		v.fields = append(v.fields, x.newCell("curveParams_"+f.name, &gv{t: f.t, term: pn}))
+	}
+	return v
 }
 
 func (p *gpkg) addHeader(key, text string) {
